@@ -72,3 +72,30 @@ def odd_clsid(draw):
     else:
         kind = "unknown-class"
     return kind, c + i
+
+
+@st.composite
+def cfgval_payload(draw, mode, max_items=100):
+    """Conforming CFG-VALSET (SET) / CFG-VALGET response (GET) payload: 4-byte
+    header followed by `n` key/value items (known and unknown key IDs)."""
+    import pyubx2
+
+    from vp.ref import codec
+
+    db = pyubx2.UBX_CONFIG_DATABASE
+    names = sorted(db)
+    width = {1: 1, 2: 1, 3: 2, 4: 4, 5: 8}
+    n = draw(st.one_of(st.integers(0, 6), st.sampled_from([63, 64, 65, 66, 100]), st.integers(0, max_items)))
+    hdr = bytes([draw(st.integers(0, 1)), draw(st.integers(0, 7)), draw(st.integers(0, 3)), 0]) if mode == 1 else (
+        bytes([1, draw(st.integers(0, 7))]) + draw(st.integers(0, 65535)).to_bytes(2, "little"))
+    out = bytearray(hdr)
+    base = draw(st.integers(0, len(names) - 1))
+    fill = draw(st.integers(0, 255))
+    for j in range(n):
+        if draw(st.integers(0, 7)) == 0:
+            kid = (draw(st.integers(1, 5)) << 28) | draw(st.integers(0, (1 << 28) - 1))
+        else:
+            kid = db[names[(base + j * 7) % len(names)]][0]
+        w = width[(kid >> 28) & 7]
+        out += kid.to_bytes(4, "little") + bytes(((fill + j + k) * 37) & 0xFF for k in range(w))
+    return bytes(out)
